@@ -409,6 +409,81 @@ fn ideal_total(t: &Table, cap: u64) -> Option<u64> {
 }
 
 /// `ntargets`: the request names one of `t0 .. t(ntargets-1)` (mimium has no forward references: a body can only name itself and earlier functions)
+/// The same count for the WASM runtime as it stands (finding F17: a pending task runs whatever function was last
+/// written at its closure address), so that generated programs stay small on that runtime too. Generator-side filter only.
+fn wasm_total(t: &Table, cap: u64) -> Option<u64> {
+    use std::cmp::Reverse;
+    use std::collections::{BinaryHeap, HashMap};
+    #[derive(PartialEq, Eq)]
+    struct T(u64, u64); // when, closure address
+    impl PartialOrd for T {
+        fn partial_cmp(&self, o: &Self) -> Option<std::cmp::Ordering> {
+            Some(self.cmp(o))
+        }
+    }
+    impl Ord for T {
+        fn cmp(&self, o: &Self) -> std::cmp::Ordering {
+            self.0.cmp(&o.0)
+        }
+    }
+    let mut heap: BinaryHeap<Reverse<T>> = BinaryHeap::new();
+    let mut mem: HashMap<u64, usize> = HashMap::new();
+    let mut total = 0u64;
+    let mut addr = 0u64;
+    for r in &t.global {
+        let w = r.c as u64;
+        if w == 0 {
+            return Some(total);
+        }
+        mem.insert(addr, r.target);
+        heap.push(Reverse(T(w, addr)));
+        addr += 1;
+    }
+    let base = addr;
+    for now in 0..t.ticks {
+        let mut due = vec![];
+        while let Some(Reverse(x)) = heap.peek() {
+            if x.0 <= now {
+                due.push(heap.pop().unwrap().0);
+            } else {
+                break;
+            }
+        }
+        let run = |body: &Vec<Req>, heap: &mut BinaryHeap<Reverse<T>>, mem: &mut HashMap<u64, usize>| -> bool {
+            let mut j = 0;
+            for r in body {
+                if r.guard.map_or(true, |g| now < g) {
+                    let w = (if r.abs { r.c } else { now as f64 + r.c }) as u64;
+                    if w <= now {
+                        return false; // rejected by the host call: the run ends here
+                    }
+                    mem.insert(base + j, r.target);
+                    heap.push(Reverse(T(w, base + j)));
+                    j += 1;
+                }
+            }
+            true
+        };
+        for x in due {
+            let f = *mem.get(&x.1).unwrap_or(&0);
+            total += 1;
+            if total > cap {
+                return None;
+            }
+            if !run(&t.tasks[f], &mut heap, &mut mem) {
+                return Some(total);
+            }
+        }
+        if !run(&t.dsp, &mut heap, &mut mem) {
+            return Some(total);
+        }
+        if heap.len() as u64 > cap {
+            return None;
+        }
+    }
+    Some(total)
+}
+
 fn gen_req(rng: &mut Rng, ntargets: usize, ticks: u64, abs: bool, boundary: bool, must_guard: bool) -> Req {
     let target = rng.below(ntargets as u64) as usize;
     let frac = *rng.pick(&FRACS);
@@ -470,7 +545,7 @@ fn gen_table(rng: &mut Rng, ticks: u64) -> Table {
             dsp.push(gen_req(rng, ntasks, ticks, abs, b, false));
         }
         let t = Table { ticks, ntasks, global, tasks, dsp };
-        if ideal_total(&t, WEIGHT - 1).is_some() {
+        if ideal_total(&t, WEIGHT - 1).is_some() && wasm_total(&t, WEIGHT - 1).is_some() {
             return t;
         }
     }
